@@ -18,4 +18,17 @@ theorem be_field_truncates (n v : Nat) : Cursor.beNat (OutCursor.beBytes n v) = 
 
 example : Cursor.beNat (OutCursor.beBytes 1 300) = 44 := by decide
 
+/-- **l2_built_packet_reparse** — the wire half of C04 for whole packets of the link-layer family: ANY stack of L2 layers
+    (built through the API or parsed) that the protocols can express (`Stackable`: every layer satisfies its invariant and
+    each layer's successor is a class its next-protocol tag can name, or a RawPDU under a tag libtins does not dispatch on),
+    once serialized, is parsed back by libtins to the same classes in the same order with the same views and payload (at
+    most `padOf` bytes of minimum-frame padding behind it).  The object half — getters reflect the accumulated edits,
+    invariants preserved by every call — is `<fam>_mk_inv` / `<fam>_apply_inv` and the per-class last-write-map and codec
+    theorems of every family (`Audit/Wire*.lean`). -/
+theorem l2_built_packet_reparse (o : Wire.AnyObj) (os : List Wire.AnyObj) (hs : Wire.L2.Stackable (o :: os)) (out : Bytes)
+    (hser : Wire.serializeObjs (o :: os) = .ok out) :
+    ∃ os', Wire.parseChain (out.length + 2) o.info.1 out = .ok os' ∧
+      Wire.L2.ViewEq (Wire.L2.padOf (o :: os)) (o :: os) os' :=
+  Wire.L2.l2_chain_reparse o os hs out hser
+
 end Tins.Props.C04
